@@ -94,12 +94,13 @@ class Runner:
     def __init__(self, acc, ctx, SP):
         self.acc, self.ctx, self.SP = acc, ctx, SP
         self.trace = []
+        self.sibling_files = set()
 
     def viol(self, sig, msg):
         self.acc.violation(sig, msg, {"params": self.params, "ops": self.trace[-45:]})
 
     def listing_ok(self, d, base, n, chunk):
-        allowed = {base + "_meta"} | {f"{base}_{k}" for k in range(math.ceil(n / chunk))}
+        allowed = {base + "_meta"} | {f"{base}_{k}" for k in range(math.ceil(n / chunk))} | self.sibling_files
         names = set(os.listdir(d))
         self.acc.count("dir_listings")
         extra = names - allowed
@@ -146,7 +147,37 @@ class Runner:
             return
         closed = False
         ok_so_far = True
+        # a second, independent array open at the same time in the same directory (30 % of the sequences): the two must
+        # not influence each other (state shared between instances would show up as cross-talk)
+        sib = sib_model = None
+        self.sibling_files = set()
+        if rng.random() < 0.3:
+            sn, sisz, schunk = rng.randint(1, 12), rng.randint(1, 9), rng.randint(1, 6)
+            try:
+                sib = SP.create(os.path.join(d, "b"), item_size=sisz, array_len=sn, item_num_in_one_file=schunk)
+            except Exception as e:
+                self.viol(f"array:sibling-create-raised:{exc_site(e)}", f"{type(e).__name__}: {e}")
+                return
+            sib_model = Model(sn, sisz)
+            self.sibling_files = {"b_meta"} | {f"b_{k}" for k in range(math.ceil(sn / schunk))}
+            acc.count("sequences_with_a_sibling_array")
         for step in range(ops_count):
+            if sib is not None and rng.random() < 0.5:
+                j = rng.randrange(sib_model.n)
+                v = rng.randbytes(rng.randint(0, sib_model.item_size))
+                self.trace.append(["sibling-set+get", j, v.hex()])
+                try:
+                    sib[j] = v
+                    sib_model.items[j] = sib_model.pad(v)
+                    k2 = rng.randrange(sib_model.n)
+                    if sib[k2] != sib_model.items[k2]:
+                        self.viol("array:sibling-cross-talk", "a second array open at the same time returned a wrong item")
+                        ok_so_far = False
+                        break
+                except Exception as e:
+                    self.viol(f"array:sibling-raised:{exc_site(e)}", f"{type(e).__name__}: {e}")
+                    ok_so_far = False
+                    break
             op = rng.choices(["get", "set", "getslice", "setslice", "del", "delslice", "clear", "iter", "in", "len",
                               "reopen", "closed_ops", "setslice_gen_fail"],
                              [22, 22, 9, 12, 5, 4, 1, 4, 5, 3, 7, 2, 4])[0]
@@ -160,6 +191,15 @@ class Runner:
                 ok_so_far = False
             if not ok_so_far:
                 break
+        if sib is not None:
+            try:
+                if ok_so_far and sib[:] != sib_model.items:
+                    self.viol("array:sibling-cross-talk", "the second array's contents were changed by operations on the first")
+                    ok_so_far = False
+                sib.close()
+            except Exception as e:
+                self.viol(f"array:sibling-raised:{exc_site(e)}", f"{type(e).__name__}: {e}")
+                ok_so_far = False
         if ok_so_far:
             # final: close, reopen, compare everything
             try:
